@@ -687,6 +687,15 @@ func (c *ctx) evalCall(f *gen.Call) Value {
 		return numV(float64(c.size))
 	case "position":
 		return numV(float64(c.pos))
+	case "reverse":
+		// the package's XPath 3 extension: the argument sequence reversed — the same node SET
+		v := ev(0)
+		if v.T != TNodeSet {
+			return undef()
+		}
+		// node sets are kept in document order in this model (unions merge sorted
+		// lists): the reversal is not represented, only set/bag-mode checks use it
+		return v
 	case "count":
 		v := ev(0)
 		if v.T != TNodeSet {
